@@ -1,6 +1,6 @@
 (* Non-vacuity examples and refutation witnesses for C05 (all by computation). *)
 From Coq Require Import ZArith List Bool Arith Lia.
-From PAFC05 Require Import Model Proofs1 Proofs2 Proofs3 Proofs4.
+From PAFC05 Require Import Model Proofs1 Proofs2 Proofs3 Proofs4 Proofs5 Proofs6.
 Import ListNotations.
 Open Scope Z_scope.
 
@@ -103,3 +103,15 @@ Proof. split; [vm_compute; reflexivity | simpl; auto]. Qed.
 Example w_emcee_partial_holds :
   Forall (half_faithful Z zprior 1) [mkS 10 0 1 [(1, 20)]; mkS 20 0 1 [(1, 30)]].
 Proof. repeat constructor. Qed.
+
+(* initializer: 2 cores, 3 points wanted; draws 2 and 4 are rejected.  Rounds: (d1,d2) (d3,d4) (d5) *)
+Definition w_draws : list (draw Z) :=
+  [([1], [10], Some 100); ([2], [20], None); ([3], [30], Some 300); ([4], [40], None); ([5], [50], Some 500); ([6], [60], Some 600)].
+Example w_init_run :
+  init_run Z 10 2 3 w_draws [] = Some ([([1], [10], 100); ([3], [30], 300); ([5], [50], 500)], [([6], [60], Some 600)]).
+Proof. vm_compute. reflexivity. Qed.
+(* the hypotheses of the all-swarm / all-thinning partial theorems hold on the refutation states *)
+Example w_pyswarms_heads : heads Z w_pos = Some [[1]] /\ List.length w_cost = List.length w_pos.
+Proof. vm_compute. auto. Qed.
+Example w_zeus_shape : Forall2 (fun (step : list (list Z)) (lp : list Z) => List.length step = List.length lp) w_chain w_logp.
+Proof. unfold w_chain, w_logp. repeat constructor. Qed.
